@@ -125,7 +125,29 @@ def oid_content(v):
     return bytes(out)
 
 
-def real_content(v, shift=0, canonical10=True):
+def real10_variant(m, e, form):
+    """Non-canonical ISO 6093 spellings of m * 10**e that BER allows (X.690 8.5.7): 1 = NR1 (integers only), 2 = NR2 (decimal
+    mark, no exponent), 3 = NR3 with a fraction digit, an explicit sign and a lower-case e, 4 = a leading space; None when the
+    form does not fit the value."""
+    neg, a = m < 0, abs(m)
+    sign = '-' if neg else ''
+    if form == 1 and 0 <= e <= 24:
+        return b'\x01' + (sign + str(a * 10 ** e)).encode('ascii')
+    if form == 2 and -24 <= e <= 24:
+        if e >= 0:
+            txt = str(a * 10 ** e) + '.0'
+        else:
+            digits = str(a).rjust(-e + 1, '0')
+            txt = digits[:e] + '.' + digits[e:]
+        return b'\x02' + (sign + txt).encode('ascii')
+    if form == 3:
+        return b'\x03' + ('%s%d.0e%+d' % ('+' if not neg else '-', a, e)).encode('ascii')
+    if form == 4:
+        return b'\x03' + (' %s%d.E%s' % (sign, a, '+0' if e == 0 else '%d' % e)).encode('ascii')
+    return None
+
+
+def real_content(v, shift=0, canonical10=True, form10=0):
     if v == 0:
         return b''
     if v == 'inf':
@@ -160,6 +182,10 @@ def real_content(v, shift=0, canonical10=True):
         while m % 10 == 0:
             m //= 10
             e += 1
+        if form10:
+            alt = real10_variant(m, e, form10)
+            if alt is not None:
+                return alt
         s = '%d.E%s' % (m, '+0' if e == 0 else '%d' % e)
         return b'\x03' + s.encode('ascii')
     raise ValueError('REAL base %r' % (b,))
@@ -201,6 +227,9 @@ class Der(object):
         return False
 
     def real_shift(self, path=''):
+        return 0
+
+    def real10_form(self, path=''):
         return 0
 
     def permute(self, n, what, path=''):
@@ -310,6 +339,13 @@ class Recording(object):
         self.script['R' + path] = r
         return r
 
+    def real10_form(self, path=''):
+        r = self.inner.real10_form(path) if hasattr(self.inner, 'real10_form') else 0
+        if r:
+            self._note('real10_form')
+        self.script['F' + path] = r
+        return r
+
     def permute(self, n, what, path=''):
         r = self.inner.permute(n, what, path)
         if r is not None and list(r) != list(range(n)):
@@ -359,6 +395,9 @@ class Replay(object):
 
     def real_shift(self, path=''):
         return int(self.s.get('R' + path, 0))
+
+    def real10_form(self, path=''):
+        return int(self.s.get('F' + path, 0))
 
     def permute(self, n, what, path=''):
         return self.s.get('P' + path)
@@ -446,7 +485,7 @@ def _encode_base(T, v, tag, ch, path=''):
     if k == 'OID':
         return _tl(cls, False, num, oid_content(v), ch, False, path)
     if k == 'REAL':
-        return _tl(cls, False, num, real_content(v, ch.real_shift(path)), ch, False, path)
+        return _tl(cls, False, num, real_content(v, ch.real_shift(path), form10=ch.real10_form(path) if hasattr(ch, 'real10_form') else 0), ch, False, path)
     if k == 'BITSTRING':
         unused, data = bits_content(v)
         return _string_tlv(cls, num, data, unused, True, ch.segments(len(data), True, path), ch, path)
